@@ -1761,9 +1761,10 @@ api_accepted(long idx, const kind *k, int ds, int dr, bool with_peer, bool set_d
 			break;
 		}
 	}
-	snprintf(note, nsz, "%s", A.M.dead ? "dead" : "");
+	bool dead = m_dead(&A.M);
+	snprintf(note, nsz, "%s", dead ? "dead" : "");
 	a_close(&A);
-	return n;
+	return dead ? -1 : n; // -1: something else was reported meanwhile, do not judge
 }
 
 typedef struct {
@@ -1777,7 +1778,14 @@ api_capacity_case(long idx, const kind *k, bool with_peer, bool peer_recvbuf)
 	static const int depths[] = { 1, 2, 3, 4, 5, 7, 8, 16 };
 	char             note[32];
 	vf_case_begin(idx, "api capacity %s %s", k->name, with_peer ? "with idle peer" : "no peer");
-	int base = api_accepted(idx, k, 0, 0, with_peer, peer_recvbuf, note, sizeof(note));
+	char counts[400];
+	int  cl   = 0;
+	int  base = api_accepted(idx, k, 0, 0, with_peer, peer_recvbuf, note, sizeof(note));
+	if (base < 0) {
+		vf_stat("cases", 1);
+		return;
+	}
+	counts[0] = 0;
 	if (!with_peer && base != 0) {
 		char key[96];
 		snprintf(key, sizeof(key), "C18/api/%s/bound/no-pipe", k->name);
@@ -1789,6 +1797,13 @@ api_capacity_case(long idx, const kind *k, bool with_peer, bool peer_recvbuf)
 			int  ds = side == 0 ? d : 0, dr = side == 1 ? d : 0;
 			int  n = api_accepted(idx, k, ds, dr, with_peer, peer_recvbuf, note, sizeof(note));
 			char key[96];
+			if (n < 0) {
+				vf_stat("cases", 1);
+				return;
+			}
+			if (cl < (int) sizeof(counts) - 40) {
+				cl += snprintf(counts + cl, sizeof(counts) - (size_t) cl, "%s\"%s%d\":%d", cl ? "," : "", side ? "recvbuf" : "sendbuf", d, n);
+			}
 			if (n - base > d) {
 				snprintf(key, sizeof(key), "C18/api/%s/bound/%s", k->name, side ? "recvbuf" : "sendbuf");
 				vf_violation(key, "depth %d buffers %d messages more than depth 0 (%d vs %d)", d, n - base, n, base);
@@ -1801,7 +1816,7 @@ api_capacity_case(long idx, const kind *k, bool with_peer, bool peer_recvbuf)
 			}
 		}
 	}
-	vf_sample("{\"capacity\":\"%s\",\"peer\":%d,\"accepted_at_depth_0\":%d}", k->name, with_peer, base);
+	vf_sample("{\"capacity\":\"%s\",\"idle_peer\":%d,\"accepted_at_depth_0\":%d,\"accepted\":{%s}}", k->name, with_peer, base, counts);
 	vf_stat("cases", 1);
 }
 
